@@ -78,87 +78,78 @@ def validated {α : Type} (u : Update) : Except GErr (Option α) → Validated
   | .ok (some _) => .valid u
   | .error e => .error (err e)
 
+/-! ## Shape-independent proofs
+
+Every proof below unfolds *everything generated for the group* (`gen_sequencer`: the listed functions and whatever
+auxiliary functions the translator found by lookup, under whatever names) together with the model's definitions and
+the maps above, and then decides the goal by case analysis on the DATA (`grind`: the comparisons of the identifiers,
+the constructors of `Bool` / `Except` / `Option`). Nothing depends on the names of helper functions or on whether the
+source writes `if`/`else`, `match` on a bool, an early `return`, a flipped comparison or a hoisted `let`. -/
+
+open Lean.Parser.Tactic in
+/-- the model's definitions and the maps between model and generated records -/
+local macro "unfold_seq" loc:(location)? : tactic => `(tactic|
+  simp only [gen_sequencer, Sequencer.new, Sequencer.isFirstUpdate, Sequencer.validateFirstUpdate,
+    Sequencer.validateNextUpdate, Sequencer.validateSequence, Sequencer.isOutdated, toSpot, ofSpot, toFut, ofFut,
+    spotIds, futIds] $[$loc]?)
+
+/-- unfold both sides, then case analysis on the data -/
+local macro "seq_agree" : tactic => `(tactic|
+  first
+  | rfl
+  | (unfold_seq; grind [check, err, validated]))
+
 /-! ## Spot -/
 
-theorem spot_new (id : Nat) : Sequencer.new id = ofSpot (BinanceSpotOrderBookL2Sequencer.new id) := rfl
+theorem spot_new (id : Nat) : Sequencer.new id = ofSpot (BinanceSpotOrderBookL2Sequencer.new id) := by seq_agree
 
 theorem spot_is_first_update (s : Sequencer) :
-    s.isFirstUpdate = (toSpot s).is_first_update := by
-  simp only [Sequencer.isFirstUpdate, BinanceSpotOrderBookL2Sequencer.is_first_update, toSpot]
-  grind
+    s.isFirstUpdate = (toSpot s).is_first_update := by seq_agree
 
 theorem spot_validate_first_update (s : Sequencer) (u : Update) :
-    s.validateFirstUpdate .spot u = check ((toSpot s).validate_first_update (spotIds u)) := by
-  simp only [Sequencer.validateFirstUpdate, BinanceSpotOrderBookL2Sequencer.validate_first_update, toSpot, spotIds]
-  grind [check, err]
+    s.validateFirstUpdate .spot u = check ((toSpot s).validate_first_update (spotIds u)) := by seq_agree
 
 theorem spot_validate_next_update (s : Sequencer) (u : Update) :
-    s.validateNextUpdate .spot u = check ((toSpot s).validate_next_update (spotIds u)) := by
-  simp only [Sequencer.validateNextUpdate, BinanceSpotOrderBookL2Sequencer.validate_next_update, toSpot, spotIds]
-  grind [check, err]
+    s.validateNextUpdate .spot u = check ((toSpot s).validate_next_update (spotIds u)) := by seq_agree
 
 theorem spot_validate_sequence (s : Sequencer) (u : Update) :
     s.validateSequence .spot u =
       (ofSpot ((toSpot s).validate_sequence (spotIds u)).1,
         validated u ((toSpot s).validate_sequence (spotIds u)).2) := by
-  simp only [Sequencer.validateSequence, Sequencer.isOutdated, spot_is_first_update, spot_validate_first_update,
-    spot_validate_next_update, BinanceSpotOrderBookL2Sequencer.validate_sequence]
-  generalize (toSpot s).is_first_update = b
-  generalize (toSpot s).validate_first_update (spotIds u) = r1
-  generalize (toSpot s).validate_next_update (spotIds u) = r2
-  cases b <;> cases r1 <;> cases r2 <;>
-    by_cases h : u.lastUpdateId ≤ s.lastUpdateId <;>
-    simp [h, check, err, validated, toSpot, spotIds, ofSpot]
+  rcases s with ⟨n, l, p⟩      -- the state record, field by field (so that `ofSpot (toSpot ⟨n, l, p⟩)` computes)
+  seq_agree
 
 /-- `Ok(Some(update))` hands back the update it was given (generated side: the same `u64` record). -/
 theorem spot_returns_same_update (g : GSpot) (v r : BinanceSpotOrderBookL2Update)
     (h : (g.validate_sequence v).2 = .ok (some r)) : r = v := by
-  simp only [BinanceSpotOrderBookL2Sequencer.validate_sequence] at h
-  generalize g.is_first_update = b at h
-  generalize g.validate_first_update v = r1 at h
-  generalize g.validate_next_update v = r2 at h
-  cases b <;> cases r1 <;> cases r2 <;> by_cases c : v.last_update_id ≤ g.last_update_id <;> simp_all
+  simp only [gen_sequencer] at h
+  grind
 
 /-! ## Futures -/
 
-theorem fut_new (id : Nat) : Sequencer.new id = ofFut (BinanceFuturesUsdOrderBookL2Sequencer.new id) id := rfl
+theorem fut_new (id : Nat) : Sequencer.new id = ofFut (BinanceFuturesUsdOrderBookL2Sequencer.new id) id := by seq_agree
 
 theorem fut_is_first_update (s : Sequencer) :
-    s.isFirstUpdate = (toFut s).is_first_update := by
-  simp only [Sequencer.isFirstUpdate, BinanceFuturesUsdOrderBookL2Sequencer.is_first_update, toFut]
-  grind
+    s.isFirstUpdate = (toFut s).is_first_update := by seq_agree
 
 theorem fut_validate_first_update (s : Sequencer) (u : Update) :
-    s.validateFirstUpdate .futures u = check ((toFut s).validate_first_update (futIds u)) := by
-  simp only [Sequencer.validateFirstUpdate, BinanceFuturesUsdOrderBookL2Sequencer.validate_first_update, toFut, futIds]
-  grind [check, err]
+    s.validateFirstUpdate .futures u = check ((toFut s).validate_first_update (futIds u)) := by seq_agree
 
 theorem fut_validate_next_update (s : Sequencer) (u : Update) :
-    s.validateNextUpdate .futures u = check ((toFut s).validate_next_update (futIds u)) := by
-  simp only [Sequencer.validateNextUpdate, BinanceFuturesUsdOrderBookL2Sequencer.validate_next_update, toFut, futIds]
-  grind [check, err]
+    s.validateNextUpdate .futures u = check ((toFut s).validate_next_update (futIds u)) := by seq_agree
 
 /-- the model's third field is a passenger under the futures rules: it is handed to `ofFut` unchanged. -/
 theorem fut_validate_sequence (s : Sequencer) (u : Update) :
     s.validateSequence .futures u =
       (ofFut ((toFut s).validate_sequence (futIds u)).1 s.prevLastUpdateId,
         validated u ((toFut s).validate_sequence (futIds u)).2) := by
-  simp only [Sequencer.validateSequence, Sequencer.isOutdated, fut_is_first_update, fut_validate_first_update,
-    fut_validate_next_update, BinanceFuturesUsdOrderBookL2Sequencer.validate_sequence]
-  generalize (toFut s).is_first_update = b
-  generalize (toFut s).validate_first_update (futIds u) = r1
-  generalize (toFut s).validate_next_update (futIds u) = r2
-  cases b <;> cases r1 <;> cases r2 <;>
-    by_cases h : u.lastUpdateId < s.lastUpdateId <;>
-    simp [h, check, err, validated, toFut, futIds, ofFut]
+  rcases s with ⟨n, l, p⟩
+  seq_agree
 
 theorem fut_returns_same_update (g : GFut) (v r : BinanceFuturesOrderBookL2Update)
     (h : (g.validate_sequence v).2 = .ok (some r)) : r = v := by
-  simp only [BinanceFuturesUsdOrderBookL2Sequencer.validate_sequence] at h
-  generalize g.is_first_update = b at h
-  generalize g.validate_first_update v = r1 at h
-  generalize g.validate_next_update v = r2 at h
-  cases b <;> cases r1 <;> cases r2 <;> by_cases c : v.last_update_id < g.last_update_id <;> simp_all
+  simp only [gen_sequencer] at h
+  grind
 
 /-! ## Everything at once (re-exported as `Props.C06.kernels_agree_with_source`) -/
 
